@@ -2,23 +2,24 @@
     Property theorems only; each closed by [exact] of a lemma from Proofs/.
     [gm] is the glob matcher (globset; external, universally quantified),
     [m] the mapping of the configured storage layout (C11's subject).
-    Three former known classes are repaired in /repo and no longer excluded:
-    root-named-extensions (38fe584), stale-id-path-cache (4564259) and
-    layout-path-occupied (01aa490, 3802aa0). *)
+    Four former known classes are repaired in /repo and no longer excluded:
+    root-named-extensions (38fe584), stale-id-path-cache (4564259),
+    layout-path-occupied (01aa490, 3802aa0) and id-needs-json-escape (5a727de).
+    No theorem carries a classifier hypothesis any more (the remaining known
+    class, glob-qmark-one-byte, concerns the external glob matcher [gm]). *)
 From Rocfl Require Import Base.Bytes Generated.Consts Model.Listing Model.KnownC19
   Proofs.ListingFacts Proofs.ListingWalkFacts Proofs.ListingGetFacts Proofs.ListingHandle Proofs.ListingWitness.
 From Coq Require Import Permutation.
 Open Scope N_scope.
 
 (** the regex of the id pre-filter is the one the model transcribes *)
-Theorem C19_regex_pinned : K_OBJECT_ID_MATCHER = b """id""\s*:\s*""([^""]+)""".
+Theorem C19_regex_pinned : K_OBJECT_ID_MATCHER = b """id""\s*:\s*(""(?:[^""\\]|\\.)+"")".
 Proof. exact object_id_matcher_pinned. Qed.
 Print Assumptions C19_regex_pinned.
 
 (** listing without a glob: every committed object exactly once, no error item -
     for every well-formed repository (objects below a directory that is merely
-    NAMED extensions included; ids that need escaping are listed correctly
-    because no pre-filter runs) *)
+    NAMED extensions included) *)
 Theorem C19_listing_exact : forall gm t,
   WellFormedRepo t ->
   Permutation (listed_ids (list_objects gm t None)) (committed_ids t) /\
@@ -27,9 +28,11 @@ Theorem C19_listing_exact : forall gm t,
 Proof. exact listing_exact. Qed.
 Print Assumptions C19_listing_exact.
 
-(** listing with a glob: exactly the committed ids the glob matches *)
+(** listing with a glob: exactly the committed ids the glob matches - the glob
+    is applied to the id itself, also when the id is spelled with JSON escapes
+    in the inventory (quotes, backslashes, control characters) *)
 Theorem C19_listing_glob : forall gm t g,
-  WellFormedRepo t -> c19_id_needs_escape t = false ->
+  WellFormedRepo t ->
   Permutation (listed_ids (list_objects gm t (Some g))) (filter (gm g) (committed_ids t)) /\
   listed_errors (list_objects gm t (Some g)) = [].
 Proof. exact listing_glob_lemma. Qed.
@@ -51,24 +54,18 @@ Theorem C19_walk_is_spec : forall t, walk t = spec_roots t.
 Proof. exact walk_is_spec. Qed.
 Print Assumptions C19_walk_is_spec.
 
-(** the pre-filter reads the id off an inventory written by rocfl iff the id
-    needs no JSON escape (the right-hand side is the classifier); in general it
-    reads the escaped text up to the first quote *)
+(** the pre-filter reads the id off an inventory written by rocfl, whatever bytes
+    the id is made of: the captured JSON string decodes to the id (5a727de) *)
 Theorem C19_extract_id_spec : forall pretty i rest,
-  i <> [] ->
-  (extract_object_id (serialize_inventory pretty i rest) = Some i <-> needs_escape i = false).
-Proof. exact extract_id_spec_lemma. Qed.
+  i <> [] -> extract_object_id (serialize_inventory pretty i rest) = Some i.
+Proof. exact extract_serialized. Qed.
 Print Assumptions C19_extract_id_spec.
 
-Theorem C19_extract_is_raw_capture : forall pretty i rest,
-  i <> [] -> extract_object_id (serialize_inventory pretty i rest) = Some (raw_capture i).
-Proof. exact extract_serialized. Qed.
-Print Assumptions C19_extract_is_raw_capture.
-
 (** lookup by scanning (repository without a layout): found iff committed, and
-    then it is that object; never another answer *)
+    then it is that object; never another answer - for every id, ids that need
+    a JSON escape included *)
 Theorem C19_get_found_iff_committed : forall t id,
-  Forall wf_root (spec_roots t) -> c19_id_needs_escape t = false ->
+  Forall wf_root (spec_roots t) ->
   (forall p j, scan_for_inventory t id = Found p j -> j = id /\ In id (committed_ids t)) /\
   (In id (committed_ids t) -> exists p, scan_for_inventory t id = Found p id) /\
   (~ In id (committed_ids t) -> scan_for_inventory t id = NotFound) /\
@@ -103,8 +100,7 @@ Print Assumptions C19_free_path_not_object.
     or only the root path as in write_new_object / validate_object) and purges
     while objects were created and versions committed ([Keeps]: every existing
     object stays where it is); without layout every state a lookup or purge ran
-    on was in the good class ([Good]: well formed, unique names, no id that
-    needs a JSON escape).  The cache then never lies. *)
+    on was in the class [Good] (well formed, unique names).  The cache then never lies. *)
 Theorem C19_handle_cache_sound : forall t c, reachable None t c -> cache_sound c t = true.
 Proof. exact reachable_sound. Qed.
 Print Assumptions C19_handle_cache_sound.
@@ -125,7 +121,7 @@ Print Assumptions C19_get_inventory_layout.
 
 (** the same for ANY cache content that names true object roots / layout paths *)
 Theorem C19_get_inventory_sound_cache : forall c t i,
-  Forall wf_root (spec_roots t) -> names_unique t = true -> c19_id_needs_escape t = false ->
+  Forall wf_root (spec_roots t) -> names_unique t = true ->
   cache_sound c t = true ->
   (In i (committed_ids t) -> exists p, fst (get_inventory None c t i) = Found p i) /\
   (~ In i (committed_ids t) -> fst (get_inventory None c t i) = NotFound).
@@ -134,7 +130,7 @@ Print Assumptions C19_get_inventory_sound_cache.
 
 (** purge removes exactly that id: from the listing, from the scan and from the path *)
 Theorem C19_purged_not_found : forall gm t p ces i,
-  WellFormedRepo t -> names_unique t = true -> c19_id_needs_escape t = false ->
+  WellFormedRepo t -> names_unique t = true ->
   In (p, ces) (walk t) -> In i (root_id (p, ces)) ->
   Permutation (listed_ids (list_objects gm (remove_at t p) None))
               (filter (fun j => negb (bytes_eqb j i)) (committed_ids t)) /\
@@ -188,30 +184,66 @@ Proof. exact staged_listing_exact_lemma. Qed.
 Print Assumptions C19_staged_listing_exact.
 
 Theorem C19_staged_listing_glob : forall gm s g,
-  WellFormedRepo s -> c19_id_needs_escape s = false ->
+  WellFormedRepo s ->
   Permutation (listed_ids (list_staged_objects gm s (Some g))) (filter (gm g) (committed_ids s)) /\
   listed_errors (list_staged_objects gm s (Some g)) = [].
 Proof. exact staged_listing_glob_lemma. Qed.
 Print Assumptions C19_staged_listing_glob.
 
-(** The excluded classes are genuine defects of the modelled code (known findings). *)
-Theorem C19_known_id_needs_escape_refuted :
-  WellFormedRepo w_esc /\
-  c19_id_needs_escape w_esc = true /\
-  listed_ids (list_objects lit_match w_esc None) = [w_idq; b "plain"] /\
-  raw_capture w_idq = w_idb /\
-  scan_for_inventory w_esc w_idq = NotFound /\
-  scan_for_inventory w_esc w_idb = Found [b "objs"; b "x"] w_idq /\
-  list_objects lit_match w_esc (Some w_idq) = [] /\
-  snd (get_inventory None [] w_esc w_idb) = [(w_idb, [b "objs"; b "x"])] /\
-  fst (get_inventory None [(w_idb, [b "objs"; b "x"])] w_esc w_idb) = Corrupt.
-Proof. exact (conj w_esc_wf w_esc_facts). Qed.
-Print Assumptions C19_known_id_needs_escape_refuted.
-
-(** The three repaired classes, as examples of the theorems above, each with a
+(** The four repaired classes, as examples of the theorems above, each with a
     historical note: the definitions [walk_before_fix] / [purge_cache_before_fix] /
-    [get_inventory_by_path_before_fix] are the code before 38fe584 / 4564259 /
-    01aa490 + 3802aa0 and violated the property. *)
+    [get_inventory_by_path_before_fix] / [extract_object_id_before_fix] are the
+    code before 38fe584 / 4564259 / 01aa490 + 3802aa0 / 5a727de and violated the
+    property. *)
+Example C19_repaired_id_needs_escape :
+  WellFormedRepo w_esc /\ names_unique w_esc = true /\
+  needs_escape w_idq = true /\ needs_escape w_idc = true /\
+  listed_ids (list_objects lit_match w_esc None) = [w_idq; b "plain"; w_idc] /\
+  extract_object_id (serialize_inventory false w_idq w_rest) = Some w_idq /\
+  extract_object_id (serialize_inventory true w_idc w_rest) = Some w_idc /\
+  scan_for_inventory w_esc w_idq = Found [b "objs"; b "x"] w_idq /\
+  scan_for_inventory w_esc w_idc = Found [b "objs"; b "z"] w_idc /\
+  scan_for_inventory w_esc w_idb = NotFound /\
+  list_objects lit_match w_esc (Some w_idq) = [IOk [b "objs"; b "x"] w_idq] /\
+  list_objects lit_match w_esc (Some w_idb) = [] /\
+  get_inventory None [] w_esc w_idq = (Found [b "objs"; b "x"] w_idq, [(w_idq, [b "objs"; b "x"])]) /\
+  fst (get_inventory None [(w_idq, [b "objs"; b "x"])] w_esc w_idq) = Found [b "objs"; b "x"] w_idq /\
+  get_inventory None [] w_esc w_idb = (NotFound, []) /\
+  purge_object None [(w_idq, [b "objs"; b "x"])] w_esc w_idq = (POk, remove_at w_esc [b "objs"; b "x"], []).
+Proof. exact (conj w_esc_wf w_esc_facts). Qed.
+
+(** before 5a727de the pre-filter read the escaped text cut at its first quote:
+    the id itself exactly when the id needs no JSON escape *)
+Theorem C19_history_id_needs_escape_before_fix : forall pretty i rest,
+  i <> [] ->
+  extract_object_id_before_fix (serialize_inventory pretty i rest) = Some (raw_capture i) /\
+  (extract_object_id_before_fix (serialize_inventory pretty i rest) = Some i <-> needs_escape i = false).
+Proof. exact extract_before_fix_history. Qed.
+Print Assumptions C19_history_id_needs_escape_before_fix.
+
+Example C19_history_id_needs_escape_witness_before_fix :
+  raw_capture w_idq = w_idb /\
+  extract_object_id_before_fix (serialize_inventory false w_idq w_rest) = Some w_idb /\
+  extract_object_id_before_fix (serialize_inventory true w_idc w_rest) = Some (b "q\").
+Proof. exact w_esc_before_fix. Qed.
+
+(** hand-written inventories: what the pre-filter reads, the decoding fallback (fs.rs:1069) *)
+Example C19_prefilter_examples :
+  extract_object_id (b "{""id"":""a\""id\"":\""zz""" ++ w_tail) = Some (b "a""id"":""zz") /\
+  parse_inventory_id (b "{""id"":""a\""id\"":\""zz""" ++ w_tail) = Some (b "a""id"":""zz") /\
+  extract_object_id (b "{ ""id"" : ""c6\u0041\ud83d\ude00""" ++ w_tail) = Some (b "c6A" ++ bs [240; 159; 152; 128]) /\
+  parse_inventory_id (b "{ ""id"" : ""c6\u0041\ud83d\ude00""" ++ w_tail) = Some (b "c6A" ++ bs [240; 159; 152; 128]) /\
+  extract_object_id (b "{""id"":""a" ++ bs [9] ++ b "b""" ++ w_tail) = Some (b "a" ++ bs [9] ++ b "b") /\
+  parse_inventory_id (b "{""id"":""a" ++ bs [9] ++ b "b""" ++ w_tail) = None /\
+  extract_object_id (b "{""id"":""x\qy""" ++ w_tail) = Some (b "x\qy") /\
+  parse_inventory_id (b "{""id"":""x\qy""" ++ w_tail) = None /\
+  extract_object_id (b "{""id"":""\ud800x""" ++ w_tail) = Some (b "\ud800x") /\
+  extract_object_id (b "{""id"":""\u00""" ++ w_tail) = Some (b "\u00") /\
+  extract_object_id (b "{""id"":"""",""x"":{""id"":""in""}}") = Some (b "in") /\
+  extract_object_id (b "{""id"":""a" ++ bs [10] ++ b "b"",""id"":""second""}") = Some (b "second") /\
+  extract_object_id (b "{""id"":""a\" ++ bs [10] ++ b """}") = None.
+Proof. exact w_prefilter_examples. Qed.
+
 Example C19_repaired_layout_path_occupied :
   ~ In (b "extensions") (committed_ids w_good) /\
   object_like w_good [b "extensions"] = false /\
@@ -235,7 +267,6 @@ Proof. exact w_occupied_before_fix. Qed.
 
 Example C19_repaired_root_named_extensions :
   WellFormedRepo w_ext /\
-  c19_id_needs_escape w_ext = false /\
   committed_ids w_ext = [b "extensions"] /\
   list_objects lit_match w_ext None = [IOk w_ext_path (b "extensions")] /\
   list_objects lit_match w_ext (Some (b "extensions")) = [IOk w_ext_path (b "extensions")] /\
@@ -264,10 +295,10 @@ Example C19_history_stale_cache_before_fix :
   fst (get_inventory None w_cache w_stale (b "A1")) = Corrupt.
 Proof. exact w_stale_before_fix. Qed.
 
-(** Non-vacuity: a well-formed repository outside every class, with a staged-only
+(** Non-vacuity: a well-formed repository, with a staged-only
     object that is not listed, and its staging root as a repository of its own. *)
 Example C19_nonvacuous :
-  WellFormedRepo w_good /\ names_unique w_good = true /\ c19_id_needs_escape w_good = false /\
+  WellFormedRepo w_good /\ names_unique w_good = true /\
   committed_ids w_good = [b "one"; b "two*[x]"] /\
   list_objects lit_match w_good None = [IOk [b "a"; b "b"] (b "one"); IOk [b "a"; b "c"] (b "two*[x]")] /\
   list_objects lit_match w_good (Some (b "two*[x]")) = [IOk [b "a"; b "c"] (b "two*[x]")] /\
@@ -278,6 +309,6 @@ Example C19_nonvacuous :
 Proof. exact (conj w_good_wf w_good_facts). Qed.
 
 Example C19_nonvacuous_staging :
-  WellFormedRepo w_staging /\ c19_id_needs_escape w_staging = false /\
+  WellFormedRepo w_staging /\
   list_staged_objects lit_match w_staging None = [IOk [b "abc"] (b "staged-only")].
 Proof. exact w_staging_wf. Qed.
